@@ -495,7 +495,7 @@ def rule_integral_double_printing(ctx, rep, rid: str) -> None:
     for f in ctx.tree.funcs:
         if isinstance(f.node, ast.Lambda) or f.module.name not in ("vm", "values", "context"):
             continue
-        in_number_family = f.name == "to_string" or any(g.name.startswith("_make_number_method") for g in _ancestors(f))
+        in_number_family = f.name == "to_string" or any(g.name.startswith("_make_number_method") or g.name.startswith("_number_to") for g in _ancestors(f))
         if not in_number_family:
             continue
         for n in f.own_nodes():
@@ -506,7 +506,7 @@ def rule_integral_double_printing(ctx, rep, rid: str) -> None:
                     continue
                 # is v a Number of either representation?  the receiver `n` of the number methods, or a value
                 # guarded as float
-                is_number = (v == "n" and f.name != "to_string") or any(pol and "float" in t and v in t for t, pol in gs)
+                is_number = (v == "n" and f.name != "to_string") or any(pol and "float" in t and v in t for t, pol in gs) or any(a.arg == v and a.annotation is not None and norm(a.annotation) in ("float", "Union[int, float]") for a in f.node.args.args)
                 if not is_number:
                     continue
                 n_sites += 1
